@@ -237,6 +237,49 @@ func (env *c19Env) apply(o c19Op) string {
 			}(g)
 		}
 		wg.Wait()
+		// aggregate verification with REPEATED keys (several messages per key: the per-key grouping sums
+		// hash images) and with repeated messages, many calls at once, each on its own valid job
+		type job struct {
+			pks  []crypto.PublicKey
+			msgs [][]byte
+			hs   []hash.Hasher
+			sig  crypto.Signature
+		}
+		var jobs []job
+		for g := 0; g < G; g++ {
+			a, b := env.sks[0], env.sks[len(env.sks)-1]
+			var j job
+			var sigs []crypto.Signature
+			for i := 0; i < 6; i++ {
+				k := a
+				if i%2 == 1 {
+					k = b
+				}
+				m := []byte(fmt.Sprintf("job %d message %d", g, i/2*2+i%2*(g%2)))
+				sg, _ := k.Sign(m, env.stressBLS)
+				sigs = append(sigs, sg)
+				j.pks, j.msgs, j.hs = append(j.pks, k.PublicKey()), append(j.msgs, m), append(j.hs, env.stressBLS)
+			}
+			j.sig, _ = crypto.AggregateBLSSignatures(sigs)
+			if ok, err := crypto.VerifyBLSSignatureManyMessages(j.pks, j.sig, j.msgs, j.hs); !ok || err != nil {
+				return "stress-job-invalid-when-alone"
+			}
+			jobs = append(jobs, j)
+		}
+		for g := 0; g < G; g++ {
+			wg.Add(1)
+			go func(j job) {
+				defer wg.Done()
+				for r := 0; r < 12; r++ {
+					if ok, err := crypto.VerifyBLSSignatureManyMessages(j.pks, j.sig, j.msgs, j.hs); !ok || err != nil {
+						mu.Lock()
+						bad++
+						mu.Unlock()
+					}
+				}
+			}(jobs[g])
+		}
+		wg.Wait()
 		if bad > 0 {
 			return fmt.Sprintf("stress-mismatch:%d", bad)
 		}
